@@ -13,6 +13,9 @@ from elexmodel.logger import getModelLogger
 from elexmodel.models import BaseElectionModel
 
 warnings.filterwarnings("error", category=UserWarning, module="cvxpy")
+# recent cvxpy versions attribute their warnings to the calling module (here: elex-solver) instead of a cvxpy module, so the
+# inaccurate-solution warning also has to be matched by its message for the retry in fit_model to happen
+warnings.filterwarnings("error", category=UserWarning, message="Solution may be inaccurate")
 
 PredictionIntervals = namedtuple("PredictionIntervals", ["lower", "upper", "conformalization"], defaults=(None,) * 3)
 
